@@ -76,6 +76,7 @@ type input struct {
 	BUses   string `json:"b_uses,omitempty"` // "" | same-key | backend (b routes to the service)
 	BRef    string `json:"b_ref,omitempty"`  // how b's own ingress spells its reference (default "foreign")
 	AOwn    bool   `json:"a_own,omitempty"`  // namespace a has its own object named foreign (in both worlds)
+	Flip    bool   `json:"flip,omitempty"`   // the key of the referenced kind is allow during a first reconciliation, then set as in Setting
 	Partial bool   `json:"partial,omitempty"`
 	Repeat  int    `json:"repeat,omitempty"`
 }
@@ -429,7 +430,19 @@ func runWorld(in input, foreign bool) worldObs {
 	if !in.Partial {
 		c0809.Must(env.Client.Create(env.Ctx, inga.DeepCopy()))
 	}
-	p.Reconcile(&convtypes.ChangedObjects{GlobalConfigMapDataNew: globalMap(in.Setting), Links: convtypes.TrackingLinks{}}, nil)
+	// the global ConfigMap reaches the converters through the real ConfigMap watcher
+	cm := c0809.ConfigMap(globalMap(in.Setting))
+	if in.Flip {
+		first := in.Setting
+		first.Vals[bitOf(rd.Key)] = "allow"
+		cm0 := c0809.ConfigMap(globalMap(first))
+		p.Watchers.FireCreate(cm0)
+		p.Reconcile(p.Watchers.Swap(), nil)
+		p.Watchers.FireUpdate(cm0, cm)
+	} else {
+		p.Watchers.FireCreate(cm)
+	}
+	p.Reconcile(p.Watchers.Swap(), nil)
 	if in.Partial {
 		// the reader arrives later: watcher event, partial sync
 		c0809.Must(env.Client.Create(env.Ctx, inga.DeepCopy()))
@@ -633,6 +646,7 @@ func genSite(rng *rand.Rand) input {
 	in.Partial = rng.Intn(3) == 0
 	in.Repeat = 3
 	in.AOwn = rng.Intn(3) == 0
+	in.Flip = rng.Intn(4) == 0
 	if in.BUses == "same-key" && key != "auth-url" && rng.Intn(3) == 0 {
 		in.BRef = []string{"secret://foreign", "/foreign", "b/foreign", "secret:///foreign"}[rng.Intn(4)]
 	}
@@ -650,6 +664,9 @@ func corpus() []input {
 		// userlists are named after the reference as written: "secret://foreign" and "/foreign" mean another secret in each namespace
 		{Kind: "sites", Setting: deny, Reader: &site{Key: "auth-secret", Ref: "secret://foreign", On: "ingress"}, BUses: "same-key", BRef: "secret://foreign", AOwn: true, Repeat: 6},
 		{Kind: "sites", Setting: deny, Reader: &site{Key: "auth-secret", Ref: "/foreign", On: "ingress"}, BUses: "same-key", BRef: "/foreign", AOwn: true, Repeat: 6},
+		// allowed first, then denied: what was read across namespaces has to go away
+		{Kind: "sites", Setting: deny, Reader: &site{Key: "tls", Ref: "b/foreign", On: "ingress"}, Flip: true, Repeat: 1},
+		{Kind: "sites", Setting: deny, Reader: &site{Key: "auth-secret", Ref: "b/foreign", On: "ingress"}, BUses: "same-key", Flip: true, Repeat: 2},
 		// secure-crt-secret / secure-verify-ca-secret split ns/name themselves and pass ns as the default namespace
 		{Kind: "sites", Setting: deny, Reader: &site{Key: "secure-crt-secret", Ref: "b/foreign", On: "ingress"}, Repeat: 1},
 		{Kind: "sites", Setting: deny, Reader: &site{Key: "secure-verify-ca-secret", Ref: "b/foreign", On: "service"}, Repeat: 1},
@@ -724,15 +741,18 @@ func main() {
 				res.Count("getter=" + c.Getter + "/" + ob.Class)
 				res.OracleChecks++
 				if c.Getter == "legacy" {
+					res.Seen(fmt.Sprintf("legacy %+v", c), strings.Contains(c.Ref, "/"))
 					if ob.Class == "ok" && c.DefNs != "" && !c.Allow && ob.Ns != c.DefNs {
 						res.Fail(hx.Failure{Key: "C09/facade-legacy", What: fmt.Sprintf("legacy buildResourceName(%q, %q, allow=false) resolved %s/%s", c.DefNs, c.Ref, ob.Ns, ob.Name), Input: in, Observed: ob})
 					}
 					continue
 				}
 				bit := map[string]int{"tls": 0, "ca": 1, "passwd": 2, "service": 3, "dh": -1}[c.Getter]
-				if strings.Contains(c.Ref, "/") && !strings.HasPrefix(c.Ref, "file://") {
+				crossRef := strings.Contains(c.Ref, "/") && !strings.HasPrefix(c.Ref, "file://")
+				if crossRef {
 					nontrivial = true
 				}
+				res.Seen(fmt.Sprintf("%+v %+v", in.Setting, c), crossRef)
 				// direct oracle: a foreign-namespace object resolved while its bit is deny
 				if ob.Class == "ok" && c.DefNs != "" && ob.Ns != c.DefNs && bit >= 0 && !obs.Bits[bit] {
 					res.Fail(hx.Failure{Key: "C09/facade-" + c.Getter, What: fmt.Sprintf("%s getter with default namespace %q resolved %q to %s/%s although its cross-namespace bit is deny", c.Getter, c.DefNs, c.Ref, ob.Ns, ob.Name),
@@ -748,7 +768,7 @@ func main() {
 						Input: in, Observed: obs.Bits})
 				}
 			}
-			res.Seen(fmt.Sprintf("%+v", in), nontrivial)
+			_ = nontrivial
 			res.Sample(1, map[string]interface{}{"setting": in.Setting, "bits": obs.Bits, "first_calls": in.Calls[:min(5, len(in.Calls))], "observed": obs.Calls[:min(5, len(obs.Calls))]})
 			if !o.Search {
 				// shards of at most 60 calls keep the terms small
